@@ -15,6 +15,7 @@ import Acpi.Tables.Build
 import Acpi.Tables.Wf
 import Acpi.Tables.Whole
 import Acpi.Spec.Walk
+import Acpi.Spec.Counts
 import Acpi.Spec.Codes
 import Acpi.Spec.Layout
 import Acpi.Spec.FixedLayout
@@ -59,6 +60,20 @@ def c11Fails (k : Kind) (c : EArgs) (opts : List Opt) (raw base : Bytes) (name :
        | some p => [⟨"prop", "C11", "option-frame", s!"{name}: byte {p} outside the options' fields changed from {base.getD p 0} to {raw.getD p 0}"⟩]
        | none => [])
   | _, _ => []
+
+/-- C12 (HMAT): the structure is small (no size refusal can apply) and every `set_entry_value`,
+    `set_initiator`, `set_target` call of the program addresses an index inside the
+    `I × T` shape given to the constructor — such a program must be accepted -/
+def locAllInRange (c : EArgs) (opts : List Opt) : Bool :=
+  let i := c.num 4
+  let t := c.num 5
+  decide (i * t ≤ 65536) && decide (i ≤ 4096) && decide (t ≤ 4096) && c.num 0 < 4 &&
+  opts.all fun o =>
+    match o.name with
+    | "sete" => decide (o.arg 0 < i) && decide (o.arg 1 < t)
+    | "seti" => decide (o.arg 0 < i)
+    | "sett" => decide (o.arg 0 < t)
+    | _ => true
 
 def kindOfString (s : String) : Option Kind :=
   match s with
@@ -208,36 +223,6 @@ def headLayoutFails (tname : String) (i : Nat) (oem : Oem) (ctor : List Nat) (h 
     | some e => [⟨"prop", "C04", "table-head-layout", s!"{tname} op#{i}: {e}"⟩]
     | none => []
 
-/-- per-entry sub-count oracles (C03, second sentence): element counts, array offsets, string
-    lengths inside one entry equal what its own length implies -/
-def entryCountsOracle (k : Kind) (raw : Bytes) : Option String :=
-  let rd (o w : Nat) : Nat := (readAt raw o w).getD 0
-  let len := raw.length
-  match k with
-  | .proc => if len < 20 ∨ (len - 20) % 4 ≠ 0 ∨ rd 16 4 ≠ (len - 20) / 4 then some "resource count" else none
-  | .hart => if len < 12 ∨ (len - 12) % 4 ≠ 0 ∨ rd 6 2 ≠ (len - 12) / 4 then some "offset count" else none
-  | .isa =>
-    let sl := rd 6 2
-    if sl = 0 ∨ len < 8 + sl then some "string length beyond node"
-    else if raw.getD (8 + sl - 1) 1 ≠ 0 then some "string not NUL-terminated at its announced length"
-    else if len ≠ (if (8 + sl) % 2 = 0 then 8 + sl else 8 + sl + 1) then some "node length is not 8 + string length rounded up to even"
-    else if ((raw.drop 8).take (sl - 1)).any (· = 0) then some "NUL inside the string" else none
-  | .iommu => if len < 32 ∨ (len - 32) % 8 ≠ 0 ∨ rd 28 2 ≠ (len - 32) / 8 ∨ rd 30 2 ≠ 32 then some "wire count/offset" else none
-  | .pcierc => if len < 16 ∨ (len - 16) % 20 ≠ 0 ∨ rd 14 2 ≠ (len - 16) / 20 ∨ rd 12 2 ≠ 16 then some "mapping count/offset" else none
-  | .platform =>
-    let off := rd 8 2; let cnt := rd 10 2
-    if off < 13 ∨ off + 20 * cnt ≠ len then some "mapping offset/count"
-    else if raw.getD (off - 1) 1 ≠ 0 then some "name not NUL-terminated" else none
-  | .msc => if len < 32 ∨ (len - 32) % 2 ≠ 0 ∨ rd 30 2 ≠ (len - 32) / 2 then some "SMBIOS handle count" else none
-  | .loc => if len ≠ 32 + 4 * rd 12 4 + 4 * rd 16 4 + 2 * (rd 12 4 * rd 16 4) then some "initiator/target counts" else none
-  | .cxims => if len < 8 ∨ (len - 8) % 8 ≠ 0 ∨ rd 7 1 ≠ (len - 8) / 8 then some "bitmap count" else none
-  | .cfmws => if len ≠ 36 + 4 * numWays (rd 24 1) then some "interleave target count" else none
-  | .qosctrl =>
-    match Spec.walk .t8l16 len (raw.drop 28) with
-    | some rs => if rs.length = rd 26 2 then none else some "resource count"
-    | none => some "resources do not tile the controller"
-  | _ => none
-
 /-- case `tbl T oemid oemtable oemrev ctor ; op ; …` -/
 def checkTbl (case impl : List String) : List Fail := Id.run do
   -- split the case into header tokens and op tokens
@@ -321,6 +306,8 @@ def checkTbl (case impl : List String) : List Fail := Id.run do
         | .ok _ =>
           if !dupImsic && !engineRefuses then
             fails := fails ++ [⟨"corr", optTag, "unexpected-panic", s!"{tname} op#{i} {op.kindName}: impl panics, model emits"⟩]
+        if op.kind = .loc ∧ locAllInRange op.ctor op.opts then
+          fails := fails ++ [⟨"prop", "C12", "in-range-pair-refused", s!"{tname} op#{i} loc {op.ctor.num 4}x{op.ctor.num 5}: an assignment with in-range indices was refused"⟩]
       | some o =>
         -- (a) full mode: entry bytes from arguments
         match built with
@@ -382,7 +369,7 @@ def checkTbl (case impl : List String) : List Fail := Id.run do
             if ty ≠ tc ∨ len ≠ o.raw.length then
               fails := fails ++ [⟨"prop", "C03", "entry-header", s!"{tname} op#{i} {op.kindName}: announces type {ty} length {len}; is type {tc}, {o.raw.length} bytes"⟩]
           | none => fails := fails ++ [⟨"prop", "C03", "entry-header", s!"{tname} op#{i} {op.kindName}: no readable header"⟩]
-          match entryCountsOracle op.kind o.raw with
+          match Spec.entryCountsOracle op.kind o.raw with
           | some e => fails := fails ++ [⟨"prop", "C03", "entry-counts", s!"{tname} op#{i} {op.kindName}: {e}"⟩]
           | none => pure ()
           -- table-level observation
@@ -469,7 +456,11 @@ def checkEnt (case impl : List String) : List Fail :=
       | ["panic"] =>
         (match built with
          | .ok _ => [⟨"corr", optTag, "unexpected-panic", s!"{op.kindName}: impl panics, model emits"⟩]
-         | .error _ => [])
+         | .error _ => []) ++
+        -- C12: every in-range (initiator, target) pair is accepted
+        (if op.kind = .loc ∧ locAllInRange op.ctor op.opts then
+           [⟨"prop", "C12", "in-range-pair-refused", s!"loc {op.ctor.num 4}x{op.ctor.num 5}: an assignment with in-range indices was refused"⟩]
+         else [])
       | [hx, same, ab, us, sinks, baseS] =>
         match hexToBytes hx with
         | none => [⟨"corr", "C04", "parse", "hex"⟩]
